@@ -17,7 +17,8 @@ LEVEL = "model_checking"
 RULE = ("E1: configurations = all sets of <= 3 resources at paths of length <= 3 over {a,b,''} (quick: a stratified 1/7 of them, "
         "rotated by VERIF_SEED), combined with 0-2 nested sites (inner resources at [], [a], [a,b]; one nested a second level) and "
         "a path-capable leaf, x all 121 request paths of length <= 4, each rendered through Context.render_to_pipe; discovery and "
-        "filters rt/if/ct/href (exact and prefix*) per configuration; E3: add/remove histories of length <= 3 over 14 operations")
+        "filters rt/if/ct/href (exact and prefix*) per configuration; every Uri-Path-Abbrev value against the spelled-out path over six "
+        ".well-known trees; E3: add/remove histories of length <= 3 over 14 operations")
 ASSUMPTIONS = [
     "nested sites sit at non-empty paths that do not end in an empty component (as the class documents)",
     "filter queries carry a single criterion (RFC 6690 section 4.1)",
@@ -242,6 +243,80 @@ def check_config(res, cfg, paths, discovery=True):
         sw.dispose()
 
 
+# Uri-Path-Abbrev (draft-ietf-core-uri-path-abbrev, the values this commit knows): a request carrying the option is routed
+# exactly like the request that spells the path out
+ABBREV = {0: (".well-known", "core"), 1: (".well-known", "rd"), 2: (".well-known", "edhoc"), 301: (".well-known", "est", "crts"),
+          302: (".well-known", "est", "sen"), 303: (".well-known", "est", "sren"), 304: (".well-known", "est", "skg"),
+          305: (".well-known", "est", "skc"), 306: (".well-known", "est", "att"), 401: (".well-known", "brski", "es"),
+          402: (".well-known", "brski", "rv"), 403: (".well-known", "brski", "vs")}
+W = ".well-known"
+
+
+def abbrev_configs():
+    est_inner = (((("crts",), 0), (("sen",), 1)), (), ())
+    brski_inner = (((("es",), 0), ((), 2)), (), ())
+    wk_inner = (((("rd",), 0), (("est", "crts"), 1)), ((("brski",), brski_inner),), ())
+    wk_inner2 = (((("edhoc",), 0),), ((("est",), est_inner),), ())
+    return [
+        ((((W, "rd"), 0), ((W, "est", "crts"), 1), ((W, "edhoc"), 2)), (), ()),
+        ((((W, "rd"), 0),), (((W, "est"), est_inner),), ()),
+        ((((W, "est", "crts"), 3),), (((W, "est"), est_inner), ((W, "brski"), brski_inner)), ()),
+        ((), (((W,), wk_inner),), ()),
+        ((((W, "rd"), 5),), (((W,), wk_inner2),), ()),
+        ((), (), ((W, "est"),)),
+    ]
+
+
+def check_abbrev(res, cfg, with_wkc):
+    log = []
+
+    def factory(sw):
+        site = build_site(cfg, log)
+        if with_wkc:
+            site.add_resource([W, "core"], resource.WKCResource(site.get_resources_as_linkheader))
+        return site
+    sw = SiteWorld(factory)
+    try:
+        case = {"abbrev_cfg": cfg, "wkc": with_wkc}
+        for n, path in sorted(ABBREV.items()):
+            for q in ((), ("k=v",)):
+                views = []
+                for spelled in (True, False):
+                    msg = Message(code=GET, uri_query=list(q))
+                    if spelled:
+                        msg.opt.uri_path = list(path)
+                    else:
+                        msg.opt.uri_path_abbrev = n
+                    k = len(log)
+                    r = sw.do(msg, 1)
+                    code = r.code.dotted if hasattr(r, "code") else repr(r)
+                    views.append((code, log[k:], bytes(r.payload) if path != (W, "core") and hasattr(r, "payload") else None))
+                res.evaluations += 1
+                res.traces += 1
+                if views[0] != views[1]:
+                    res.violate(Violation("abbreviated-path-routing", {"spelled out": views[0]}, {"abbreviated": views[1]},
+                                          "resource.py:_expand_upa", dict(case, abbrev=n, query=q),
+                                          key="upa:%s->%s" % (views[0][0], views[1][0])))
+                res.outcomes.add(core.digest(("upa", views[0][0], len(views[0][1]))))
+        # an unknown abbreviation, and an abbreviation next to a spelled-out path, reach no handler
+        for what, kw in (("unknown", dict(uri_path_abbrev=77)), ("conflict", dict(uri_path_abbrev=1, uri_path=["a"]))):
+            msg = Message(code=GET)
+            for k_, v_ in kw.items():
+                setattr(msg.opt, k_, v_)
+            k = len(log)
+            r = sw.do(msg, 1)
+            code = r.code.dotted if hasattr(r, "code") else repr(r)
+            res.evaluations += 1
+            if log[k:] or not code.startswith("4."):
+                res.violate(Violation("abbreviated-path-routing", "a 4.xx error, no handler", {"code": code, "handler": log[k:]},
+                                      "resource.py:_expand_upa", dict(case, abbrev=what), key="upa-bad:" + what))
+        for msg, e in sw.loop_exceptions():
+            res.violate(Violation("loop-exception", "none", core.exc_desc(e) if e else msg, core.site_of(e) if e else "loop", case, key="loop"))
+        res.signatures.add(core.digest(("upa", cfg, with_wkc)))
+    finally:
+        sw.dispose()
+
+
 INNER = [((((), 0),), (), ()), (((("a",), 1),), (), ()), (((("a", "b"), 2), ((), 3)), (), ()),
          (((("a",), 0),), ((("b",), ((((), 1), (("a",), 0)), (), ())),), ())]    # the last one nests a second level at inner /b
 
@@ -281,6 +356,11 @@ def job(arg):
         for cfg in items:
             check_config(res, cfg, PATHS4)
         res.sample({"config(resources,subsites,leaves)": items[len(items) // 2]})
+    elif kind == "abbrev":
+        for cfg in abbrev_configs():
+            for with_wkc in (True, False):
+                check_abbrev(res, cfg, with_wkc)
+        res.sample({"uri_path_abbrev": 301, "same_as_path": list(ABBREV[301])})
     else:
         histories(res, items)
     return res
@@ -402,6 +482,7 @@ def run(tier, seed, jobs):
     n = 64
     work = [("cfg", cfgs[i::n]) for i in range(n)]
     work += [("hist", [op]) for op in OPS if op[0] == "add"]
+    work.append(("abbrev", None))
     if tier == "thorough":
         work += [("hist", [(a, b)]) for a in OPS if a[0] == "add" for b in OPS]     # depth 4
     res = core.prun(job, work, jobs)
@@ -415,7 +496,9 @@ def _tup(x):
 
 def replay(case, scenario, seed):
     res = Result()
-    if "history" in case:
+    if "abbrev_cfg" in case:
+        check_abbrev(res, _tup(case["abbrev_cfg"]), case["wkc"])
+    elif "history" in case:
         h = _tup(case["history"])
         histories(res, [tuple(h[:max(1, len(h) - 2)])])
     else:
